@@ -40,9 +40,9 @@ Definition check (c : case) : outcome :=
      (* the property on the implementation's answers: empty, or allowed by an
         earlier store for the same file id *)
      o_prop := impl_transparent [] (ops c) (impl c);
-     (* finding 0 / 1 only when EVERY failing answer is explained, at its own lookup,
-        by a store for another file id with the same needle key / by a minimum
-        size from 2^63 on (props: c31_trigger_total) *)
+     (* finding 0 only when EVERY failing answer is explained, at its own lookup,
+        by a store for another file id with the same needle key (props:
+        c31_trigger_total); never 1 or 2 (repaired; c31_trigger_only_zero) *)
      o_trig := trigger (ops c) (impl c);
      o_nontrivial := any_hit (ops c) (impl c) |}.
 
